@@ -512,6 +512,9 @@ def to_nd(t, v, form="nd"):
         if t[1][0] == "S":
             return nd_array(t[1][1], v, form)
         shape = v["shape"]
+        if any(s == 0 for s in shape[:-1]):
+            # a nested list cannot say (0, n): an (empty) object array carries the shape
+            return np.empty(shape, dtype=object)
 
         def rec(prefix, d):
             if d == len(shape):
